@@ -221,6 +221,52 @@ theorem racyTrace_race : Race racyTrace :=
 example : WF racyTrace ∧ Race racyTrace ∧ ∀ d : CLoc Field → Rule (CLoc Field), ¬ Follows racyTrace d :=
   ⟨racyTrace_wf, racyTrace_race, fun d hf => C15_discipline_sound racyTrace racyTrace_wf d hf racyTrace_race⟩
 
+/-- the regenerated table has a row "write of `Resource::m_queue` of `this` under `this->m_mutex`" and the matching read row
+(whatever their positions in the table are) -/
+theorem table_has_queue_rows : ∀ w : Bool, ∃ e ∈ AccessTable.entries,
+    e.loc = .Resource_m_queue ∧ e.obj = .self ∧ e.write = w ∧ e.decl = .plain ∧ e.conds = [] ∧ e.init = false ∧
+    e.guards = [⟨.self, .Resource_m_mutex, .excl⟩] ∧ e.spawned = false ∧ entryRole e.root = .any := by
+  decide +kernel
+
+/-- the world of the example: every member is its own anchor, threads play no role -/
+def exW : World Field := { thr := fun _ _ => 0, anchorOf := fun x => x }
+
+/-- **the hypotheses of `C15_no_race` are satisfiable**: both accesses of `goodTrace` are instances of rows of the
+regenerated table (the critical sections of `Resource::lock…` on the Resource object `7`) -/
+theorem goodTrace_instances (k t : Nat) (x : CLoc Field) (wr : Bool) (h : goodTrace[k]? = some ⟨t, .acc x wr⟩) :
+    IsInstance discipline entryRole excludedConds AccessTable.entries exW goodTrace k t x wr := by
+  obtain ⟨e, hmem, hloc, hobj, hw, hdecl, hconds, hinit, hguards, hsp, hrole⟩ := table_has_queue_rows wr
+  have hk : (k = 1 ∧ t = 1) ∨ (k = 4 ∧ t = 2) := by
+    rcases k with _|_|_|_|_|_|k
+    all_goals try (rw [goodTrace_none] at h; cases h)
+    all_goals try (simp [goodTrace] at h)
+    · exact Or.inl ⟨rfl, h.1.symm⟩
+    · exact Or.inr ⟨rfl, h.1.symm⟩
+  have hx : x = exX := by
+    rcases hk with ⟨rfl, rfl⟩ | ⟨rfl, rfl⟩ <;> simp [goodTrace] at h <;> exact h.1.symm
+  subst hx
+  refine ⟨e, fun _ => 7, hmem, by rw [hloc]; rfl, rfl, fun hh => by rw [hw]; exact hh, hdecl, ?_, ?_, ?_, ?_, ?_, ?_⟩
+  · intro c hc; rw [hconds] at hc; cases hc
+  · intro hi; rw [hinit] at hi; cases hi
+  · intro g hg
+    rw [hguards] at hg
+    simp only [List.mem_singleton] at hg
+    subst hg
+    rcases hk with ⟨rfl, rfl⟩ | ⟨rfl, rfl⟩ <;> (show exclOwner goodTrace exM _ = some _; decide)
+  · intro f o ha
+    rw [hloc, hobj] at ha
+    simp only [anchor, discipline, TRule.isOwned] at ha
+    cases ha
+    rfl
+  · intro hr
+    simp only [Entry.role, hsp, hrole, Role.isThreadRole] at hr
+    cases hr
+  · intro ws hd
+    simp [exW, exX, discipline] at hd
+
+/-- `C15_no_race` applied to it -/
+example : ¬ Race goodTrace := C15_no_race exW goodTrace goodTrace_wf goodTrace_instances
+
 /-- the table check can fail: a plain `bool` flag where the discipline demands an atomic (the unrepaired
 `ThreadPool::m_isRunning`, finding F6/F7) does not follow; the same row with an atomic declaration does -/
 example :
